@@ -52,7 +52,7 @@ void h_f_relax(void) { const self_t *s; const mat *A; const vec *rhs; vec *x; %(
        'tmpdecl': 'vec *tmp;' if has_tmp else '', 'tmparg': ', tmp' if has_tmp else ''}
     return Unit(name=name, props=list(props), functions=[desc.split(':')[0]], desc=desc,
                 cuts={'body': Cut(src, sig, nth=nth, rules=list(extra_rules))},
-                template=tmpl, enforce='f_relax', replace=CALLEES, mode='loopfree', obj_bits=12, timeout=120,
+                template=tmpl, enforce='f_relax', replace=CALLEES, mode='loopfree', obj_bits=12, timeout=120, replay='orchestration',
                 assumptions=A_RELAX)
 
 
